@@ -246,7 +246,9 @@ class RandomLineAccessFile(BaseRandomLineAccessFile[str]):
         """
 
         if self.file is None:
-            self.file = open(self.path_to, "r")
+            # The index is made of "\n" delimited lines, so the universal newlines mode must be switched off. Otherwise
+            # a carriage return would end a line too and the content would differ from the memory mapped variant.
+            self.file = open(self.path_to, "r", newline="\n")
             self._opened_in_process_with_id = os.getpid()
 
         return self
